@@ -23,6 +23,12 @@ def _process_many(*args, connectable, zip, combine):
                             for _ in range(append_count):
                                 queue.append(None)
                                 has_next.append(False)
+                        # a key lifetime that ended with a mux error did not
+                        # reset its cells: a new lifetime starts from scratch
+                        base_index = x.key[0] * n
+                        for index in range(n):
+                            queue[base_index+index] = None
+                            has_next[base_index+index] = False
                     observer.on_next(x)
                 return
 
